@@ -19,6 +19,7 @@ mod udpconc;
 mod udpnet;
 mod udpstats;
 mod uringsend;
+mod uringrecv;
 mod validator;
 mod wsclient;
 mod wsjson;
@@ -128,6 +129,7 @@ fn main() {
         "wsstore" => wsstore::run(&mut out, seed, cases, maxops, &replay),
         "validator" => validator::run(&mut out, seed, cases, &replay),
         "uringsend" => uringsend::run(&mut out, seed, cases, &replay),
+        "uringrecv" => uringrecv::run(&mut out, seed, cases, &replay),
         "acl" => acl::run(&mut out, seed, cases, &replay),
         "addr" => addr::run(&mut out, seed, cases, &replay),
         "timeunit" => timeunit::run(&mut out, seed, cases),
